@@ -33,6 +33,9 @@ NEUTRAL_IMPL_TRAITS = {"Serialize", "Deserialize", "JsonSchema", "JsonSchemaMayb
 KNOWN_FEATURES = {"default", "std", "derive", "docs", "decode", "bit-vec", "schema", "serde"}
 VEC_PLUMBING = {"alloc::boxed::Box::new_uninit", "alloc::boxed::box_assume_init_into_vec_unsafe", "alloc::slice::<impl [T]>::into_vec",
                 "alloc::boxed::Box::new", "alloc::alloc::exchange_malloc", "alloc::boxed::box_new_uninit"}
+STRING_CONVERSIONS = {"<alloc::string::String as core::convert::From>::from", "<T as core::convert::From>::from", "<T as core::convert::Into>::into",
+                      "<str as alloc::borrow::ToOwned>::to_owned", "<T as alloc::string::ToString>::to_string", "<str as alloc::string::ToString>::to_string",
+                      "alloc::string::<impl core::convert::From<&str> for alloc::string::String>::from"}
 DOCS_SETTERS = {"scale_info::build::TypeBuilder::docs", "scale_info::build::FieldBuilder::docs", "scale_info::build::VariantBuilder::docs"}
 
 
@@ -567,6 +570,10 @@ def fingerprint(b):
             n = b.callee_name(t)
             if n in VEC_PLUMBING:
                 continue
+            if n in STRING_CONVERSIONS:
+                # &'static str -> PortableForm::String: the owned and the borrowed string are the same characters (R6.3 checks the chosen type encodes
+                # as a str); which conversion resolves depends on which of the two the configuration picked
+                n = "<portable-string-conversion>"
             out.append(("call", n))
             for a in t["args"]:
                 if "const" in a:
